@@ -202,6 +202,15 @@ func (r *renderer) args(args []Arg) {
 }
 
 func (r *renderer) list(items []Expr) {
+	if len(items) == 1 {
+		if c, ok := items[0].(*Chain); ok && c.Head.Kind == HImplicit && len(c.Steps) == 1 && c.Steps[0].Kind == SStar {
+			// a multi-select whose only item is the bare object wildcard: the
+			// text [*] (meaningful after a dot only; white space inside it is
+			// not pinned by the grammar)
+			r.b.WriteString("[*]")
+			return
+		}
+	}
 	r.b.WriteByte('[')
 	for i, x := range items {
 		if i > 0 {
